@@ -31,10 +31,10 @@ struct _queue { size_t len; void *first; void *last; };
 struct _list  { size_t len; };
 struct _list_itr { m_list_t *l; size_t idx; };
 struct _list_itr *g_lit; pthread_t g_thobj; size_t g_j0;
-typedef struct { size_t lock_calls, unlock_calls, wait_calls, signal_calls, bcast_calls, addthr_calls, enq_calls, deq_calls, task_calls, join_calls, create_calls; int addthr_num; void *enq_arg; m_queue_t *enq_q; } ghost_t;
+typedef struct { size_t waitpool_calls, conddestroy_calls, mutexdestroy_calls, qfree_calls, lfree_calls, qclear_calls; int waitpool_mode; size_t lock_calls, unlock_calls, wait_calls, signal_calls, bcast_calls, addthr_calls, enq_calls, deq_calls, task_calls, join_calls, create_calls; int addthr_num; void *enq_arg; m_queue_t *enq_q; } ghost_t;
 ghost_t g; bool g_lock_held; int g_lock_ret, g_addthr_ret; size_t g_tc0, g_dq0, g_fc0; void *g_task_arg;
 #include "public/module/thpool/thpool.h"
-m_thpool_t *g_pool; m_queue_t *g_tasks; m_list_t *g_threads;
+m_thpool_t *g_pool, *g_poolref; m_queue_t *g_tasks; m_list_t *g_threads; int g_wait_ret;
 #include "thpool/thpool.c"       /* the real translation unit, unmodified */
 thpool_task_t *g_task_rec;
 static inline bool v_q_ok_fn(const struct _queue *q) { return q != NULL && V_RW_OK(q, sizeof(struct _queue)) && q->len < ((size_t)1 << 60); }
@@ -74,6 +74,26 @@ void h_pool_length(void) {
     build_pool();
     ssize_t r = m_thpool_length(vin_null_pool ? NULL : g_pool);
     V_COVER("len-ok", r >= 0 && !vin_null_pool); V_COVER("len-refused", r == -EPERM); V_CANARY();
+}
+#endif
+#ifdef V_POOL_FREE
+void h_pool_free(void) {
+    build_pool();
+    V_ASSUME(vin_addthr_ret >= 0);
+    g_wait_ret = vin_addthr_ret; g_poolref = vin_null_task ? NULL : g_pool; g_fc0 = g_free_calls;
+    uint32_t st = vin_init_state; V_ASSUME(st == 0 || st == 1 || st == 3 || st == 7 || st == 0xf || st == 0x1f);
+    int r = m_thpool_free(vin_null_pool ? NULL : &g_poolref, vin_running & 1);
+    V_COVER("free-started-wait-all", r == 0 && st == 0x1f && (vin_running & 1) && g.waitpool_calls == 1); V_COVER("free-half-initialised", r == 0 && st == 3); V_COVER("free-null", r == -EINVAL);
+    V_COVER("free-wait-fails", st == 0x1f && vin_addthr_ret != 0 && r == 0);
+    V_CANARY();
+}
+#endif
+#ifdef V_POOL_CLEAR
+void h_pool_clear(void) {
+    build_pool();
+    ssize_t r = m_thpool_clear(vin_null_pool ? NULL : g_pool);
+    V_COVER("clear-ok", r == 0 && vin_ntasks == 5 && g.qclear_calls == 1); V_COVER("clear-refused", r == -EPERM); V_COVER("clear-lock-fails", g.lock_calls == 1 && g.qclear_calls == 0);
+    V_CANARY();
 }
 #endif
 #ifdef V_POOL_WORKER
